@@ -364,10 +364,12 @@ def worker(item: Any, res: runner.Result) -> None:  # pylint: disable=too-many-l
     orders: List[Tuple[Tuple[int, ...], ...]] = []
     if len(plist) >= 2:
         if TIER == "quick":
-            orders += list(itertools.permutations(plist[:2], 2))
+            # the functions above were built one after the other in path order on one contract; the quick tier adds the
+            # reversed order of the first three paths (every pair in the opposite relative order), thorough all orders
+            orders.append(tuple(reversed(plist[:3])))
         else:
             orders += list(itertools.permutations(plist[:3], min(3, len(plist[:3]))))
-        orders.append(tuple(reversed(plist)))
+            orders.append(tuple(reversed(plist)))
     for order in orders:
         try:
             teal2, _ = harness.parse(src)
